@@ -49,7 +49,7 @@ def gen_history(rng, weights):
 def drive(ctx, ops, cid):
     w = e5.World()
     try:
-        obs, fails = [], []
+        obs, cobs, fails = [], [], []
         last_hash, regs_live = None, {}
         polled = []
         for i, op in enumerate(ops):
@@ -111,12 +111,19 @@ def drive(ctx, ops, cid):
             else:
                 w.tasks.run(op[1])
             obs.append(w.installed())
-            # convergence oracle at every quiescent point
+            cobs.append(w.custom_numbers())
+            # convergence oracle at every quiescent point: the handler acts on what the SERVICE holds now (its polled
+            # configuration and its registrations; that the registrations are the right ones is C13)
             if not w.tasks.pending:
-                want = polled + [regs_live[i2] for i2 in sorted(regs_live)]
+                want = polled + w.custom_numbers()
                 if w.installed() != want:
-                    fails.append(("not-converged", "no update task pending, the handler acts on %r, latest configuration + "
-                                  "registrations is %r" % (w.installed(), want)))
+                    fails.append(("not-converged", "no update task pending, the handler acts on %r, the service holds the polled configuration %r "
+                                  "and the registrations %r" % (w.installed(), polled, w.custom_numbers())))
+                want_reg = [regs_live[i2] for i2 in sorted(regs_live)]
+                got_reg = [n for n in w.installed() if n >= 100]
+                if got_reg != want_reg:
+                    fails.append(("registered-not-active", "no update task pending, the registered tracepoints the handler acts on are %r, "
+                                  "the registrations not yet unregistered are %r" % (got_reg, want_reg)))
         # the hash reported by the next poll
         w.do_poll(e5.poll_no_change(999))
         req = e5.ScriptedStub.requests[-1][0]
@@ -135,10 +142,11 @@ def drive(ctx, ops, cid):
                 model_ops.append(("unregister", op[1]))
             else:
                 model_ops.append(op)
-        lit = "{| sv_ops := %s; sv_obs_installed := %s; sv_obs_hash := %s; sv_obs_custom := %s; sv_obs_pending := %s |}" % (
+        lit = "{| sv_ops := %s; sv_obs_installed := %s; sv_obs_hash := %s; sv_obs_custom := %s; sv_obs_pending := %s; sv_obs_customs := %s |}" % (
             L.lst(e5.op_lit(o) for o in model_ops), L.lst(L.lst(L.nat(n) for n in o) for o in obs),
             L.opt(None if w.svc.current_hash is None else L.nat(int(w.svc.current_hash))),
-            L.lst(L.nat(n) for n in w.custom_numbers()), L.nat(len(w.tasks.pending)))
+            L.lst(L.nat(n) for n in w.custom_numbers()), L.nat(len(w.tasks.pending)),
+            L.lst(L.lst(L.nat(n) for n in o) for o in cobs))
         return lit, fails
     finally:
         w.close()
@@ -200,6 +208,10 @@ def timer_continues(ctx):
                  dict(calls=len(calls)), tag="timer-stopped")
 
 
+# which oracle belongs to which property: C12 = the handler converges to what the service holds, failed polls change nothing,
+# the reported hash; C13 = handles (refusal leaves no trace, unregister removes exactly its registration, handles are distinct)
+OWN = {"C12": {"poll-raised", "nochange-altered", "failed-poll-accepted", "failed-poll-altered", "not-converged", "hash"},
+       "C13": {"bad-accepted", "bad-raised", "refused-left-trace", "unregister-wrong", "handle-shared", "registered-not-active"}}
 WEIGHTS_C12 = dict(update=0.3, nochange=0.1, failed=0.1, register=0.12, run=0.28)
 WEIGHTS_C13 = dict(update=0.1, nochange=0.03, failed=0.02, register=0.35, run=0.2)
 
@@ -231,12 +243,13 @@ def run(ctx, cid="C12"):
                  bucket="ops=%d" % min(len(ops), 30))
         seen = set()
         for tag, what in fails:
-            if tag not in seen:
+            if tag not in seen and tag in OWN[cid]:
                 seen.add(tag)
                 ctx.fail(what, j, kind="history", tag=tag)
         lits.append(lit)
         cj.append(j)
-    ctx.correspond("service", IMPORTS, "svc_case", "check_svc_case", lits, cj, shard=100)
+    # each property compares its own observables (ConfigSvc.check_svc_case_polled / _reg)
+    ctx.correspond("service", IMPORTS, "svc_case", "check_svc_case_polled" if cid == "C12" else "check_svc_case_reg", lits, cj, shard=100)
     if cid == "C12":
         physical(ctx, cid)
         timer_continues(ctx)
